@@ -48,6 +48,27 @@ def run_real(prog, n, pairs, shape, as_source, flowkind="iter", calls=1):
     return "ok", out
 
 
+def bad_source_first(ctx):
+    """The first argument of a Source must be callable or iterable: anything else is rejected with
+    LenaTypeError at construction, with or without a tail (never later, when the Source is called)."""
+    import lena.core
+    import lena.flow
+    tails = [(), (lambda x: x,), (lena.flow.Slice(2),), (lena.flow.Count(), lena.core.Sequence())]
+    for name, first in (("int", 1), ("none", None), ("obj", fl.NoRun()), ("float", 2.5), ("runnone", fl.RunNotCallable())):
+        for tail in tails:
+            ctx.evaluations += 1
+            try:
+                with fl.quiet_warnings():
+                    lena.core.Source(first, *tail)
+                res = "accepted"
+            except lena.core.LenaTypeError:
+                res = "LenaTypeError"
+            except Exception as exc:    # noqa
+                res = exc_name(exc)
+            if res != "LenaTypeError":
+                ctx.violation("build:source-first:%s:tail=%d:%s" % (name, len(tail), res), {"first": name})
+
+
 def stateless(prog):
     """Programs whose elements can be run twice (accumulators keep state between runs)."""
     return all(st["t"] not in ("sum", "last", "count", "split") for st in prog)
@@ -101,6 +122,15 @@ def run(ctx):
             ctx.distinct.add(core.canon([rec["prog"], rec["n"], rec["pairs"]]))
     ctx.sample({"spec_behaviour": recs[len(recs) // 2]})
     ctx.sample({"spec_behaviour": recs[-1]})
+    # callables whose result is None: one output per input, None is a value like any other
+    recs_nul = ctx.export("Flow", "Flow_c01_nul.cfg", min_records=200)
+    for rec in recs_nul:
+        replay(ctx, rec, all_shapes=False)
+        ctx.traces += 1
+        if rec["prog"] and rec["n"]:
+            ctx.distinct.add(core.canon([rec["prog"], rec["n"], rec["pairs"]]))
+    ctx.sample({"spec_behaviour_none_values": recs_nul[len(recs_nul) // 2]})
+    bad_source_first(ctx)
     # empty Sequence is the identity also on arbitrary objects
     objs = [object(), "s", (1, {}), None]
     if list(lena.core.Sequence().run(iter(objs))) != objs:
